@@ -257,6 +257,7 @@ type Cluster struct {
 	lastTampered      *ffTriple
 	lastTamperedOp    string
 	syn               *synthState
+	byzLeaveAsked     bool
 	synTxn            int
 	synPTx            float64 // share of synthetic events that carry payload (0: default)
 	synFairFrom       int     // synthetic histories: number of events created before the fair continuation (0: none)
